@@ -193,7 +193,8 @@ class SimulationFixedTimes(Simulation):
         all_nb_of_jumps = self._poisson_rv.popleft()
         jump_increment = self.process.model.jump_increment
         increments = [jump_increment(n=nbOfJumps) for nbOfJumps in all_nb_of_jumps]
-        jump_values = np.array([np.sum(increment) for increment in increments])
+        # running sum over the product dates (the path carries the cumulated jumps, like the diffusion part)
+        jump_values = np.cumsum([np.sum(increment) for increment in increments])
         return jump_values
 
     def simulate_diffusion(self, sqrt_dts):
